@@ -20,6 +20,14 @@
 (*   Gate              out = incoming if trigger > 0 else 0                *)
 (*   FixedPartition    fraction 1/2:   o1 = in/2, o2 = in/2                *)
 (*   RunoffCoefficient coeff 2:        out = 2*in                          *)
+(*   RatingCurvePartition  a TABLE-parameter model (dimension nPts): node    *)
+(*                     row r has a 2-point (r even) or 3-point (r odd) table *)
+(*                     whose proportion is 1/2 everywhere: o1 = o2 = in/2;   *)
+(*                     ow-sim has to size the table from the parameter file  *)
+(*   DynamicSednetGully, DynamicSednetGullyAlt  two catalogue models whose   *)
+(*                     NAMES are prefix-related; never linked to and without *)
+(*                     stored inputs, so their driver (quick flow) is 0 and  *)
+(*                     all four outputs are 0 (ExactModels.tla, GenZeroDriver)*)
 (*   Muskingum         K=1, X=0, dt=2 (a1 = a2 = 1/2, a3 = 0); tot = inflow *)
 (*                     + lateral: out(t) = tot(t)/2 + tot(t-1)/2;          *)
 (*                     states S, previous total inflow, previous outflow   *)
@@ -37,15 +45,21 @@ CONSTANTS Kinds,        \* subset of the kernel names above
 VARIABLES stage, models, ngen, links, done
 vars == <<stage, models, ngen, links, done>>
 
+GullyKinds == {"DynamicSednetGully", "DynamicSednetGullyAlt"}
 NI(k) == CASE k = "Input" -> 1 [] k = "Sum" -> 2 [] k = "Gate" -> 2 [] k = "FixedPartition" -> 1
-           [] k = "RunoffCoefficient" -> 1 [] k = "Muskingum" -> 2
-NO(k) == IF k = "FixedPartition" THEN 2 ELSE 1
+           [] k = "RunoffCoefficient" -> 1 [] k = "Muskingum" -> 2 [] k = "RatingCurvePartition" -> 1 [] k \in GullyKinds -> 4
+NO(k) == IF k \in {"FixedPartition", "RatingCurvePartition"} THEN 2 ELSE IF k \in GullyKinds THEN 4 ELSE 1
 NS(k) == IF k = "Muskingum" THEN 3 ELSE 0
 \* input variables that links may target
-LinkableInputs(k) == 0..(NI(k) - 1)
-Params(k) == CASE k = "FixedPartition" -> <<1>>            \* fraction numerator over 2
+LinkableInputs(k) == IF k \in GullyKinds THEN {} ELSE 0..(NI(k) - 1)
+BIG == 1073741824
+\* parameter column of node `row` (integers; proportions are numerators over 2; the table model lists nPts, the
+\* knots, then the proportions)
+Params(k, row) == CASE k = "FixedPartition" -> <<1>>
                [] k = "RunoffCoefficient" -> <<2>>
                [] k = "Muskingum" -> <<1, 0, 2>>
+               [] k = "RatingCurvePartition" -> IF row % 2 = 0 THEN <<2, 0, BIG, 1, 1>> ELSE <<3, 0, 64, BIG, 1, 1, 1>>
+               [] k \in GullyKinds -> <<2000, 2010, 5, 2, 6, 25, 1, 2, 1, 50, 20, 86400>>
                [] OTHER -> <<>>
 
 RECURSIVE SumSeq(_)
@@ -64,6 +78,7 @@ ChooseModel ==
     /\ stage = "models" /\ Len(models) < MaxModels
     /\ \E k \in Kinds, st \in BOOLEAN :
          /\ \A i \in 1..Len(models) : models[i].kind # k       \* model names are unique in a file
+         /\ (k \in GullyKinds => ~st)
          /\ models' = Append(models, [kind |-> k, stored |-> st, counts |-> <<>>])
     /\ UNCHANGED <<stage, ngen, links, done>>
 ModelsDone ==
@@ -110,7 +125,8 @@ Kernel(k, in, st) ==   \* in: [j -> [t -> value]] (1-based), st: sequence of sta
     CASE k = "Input" -> [out |-> <<in[1]>>, st |-> st]
       [] k = "Sum" -> [out |-> << [t \in 1..T |-> in[1][t] + in[2][t]] >>, st |-> st]
       [] k = "Gate" -> [out |-> << [t \in 1..T |-> IF in[1][t] > 0 THEN in[2][t] ELSE 0] >>, st |-> st]
-      [] k = "FixedPartition" -> [out |-> << [t \in 1..T |-> Half(in[1][t])], [t \in 1..T |-> Half(in[1][t])] >>, st |-> st]
+      [] k \in GullyKinds -> [out |-> [v \in 1..4 |-> [t \in 1..T |-> 0]], st |-> st]
+      [] k \in {"FixedPartition", "RatingCurvePartition"} -> [out |-> << [t \in 1..T |-> Half(in[1][t])], [t \in 1..T |-> Half(in[1][t])] >>, st |-> st]
       [] k = "RunoffCoefficient" -> [out |-> << [t \in 1..T |-> 2 * in[1][t]] >>, st |-> st]
       [] k = "Muskingum" ->
             LET o == [t \in 1..T |-> Half(in[1][t] + in[2][t]) + Half(IF t = 1 THEN st[2] ELSE in[1][t - 1] + in[2][t - 1])]
@@ -152,6 +168,35 @@ Reference ==
 ExactGrid(ref) == \A m \in 1..Len(models) : \A r \in 1..Total(m) : \A j \in 1..NI(models[m].kind) : \A t \in 1..T :
                       ref.inp[m][r][j][t] % 2 = 0
 
+---------------------------------------------------------------------------
+(* which datasets ow-sim writes: the four selection flags.  -outputs-for / -inputs-for FORCE inclusion, the -no-
+   flags exclude, inclusion wins, and a model named by neither keeps its default: outputs are written; final
+   inputs are written only for models WITHOUT nodes in the first generation (their inputs were all computed).
+   Names are compared as whole names.  (The flag help says "only write ... for specified models"; the implemented
+   and specified meaning is the one above.) *)
+ModelIx == 1..Len(models)
+WritesOutputs(m, f) == f.outFor[m] \/ ~f.noOutFor[m]
+DefaultWritesInputs(m) == models[m].counts[1] = 0
+WritesInputs(m, f) == IF f.inFor[m] THEN TRUE ELSE IF f.noInFor[m] THEN FALSE ELSE DefaultWritesInputs(m)
+None == [m \in ModelIx |-> FALSE]
+All == [m \in ModelIx |-> TRUE]
+Only(i) == [m \in ModelIx |-> m = i]
+Flags(o, no, i, ni) == [outFor |-> o, noOutFor |-> no, inFor |-> i, noInFor |-> ni]
+Selections ==
+    LET n == Len(models) IN
+    <<Flags(None, Only(1), Only(n), None), Flags(Only(1), None, None, All)>>
+    \o [i \in 1..n |-> Flags(None, Only(i), None, Only(i))]           \* one model deselected at a time
+    \o [i \in 1..n |-> Flags(Only(i), All, Only(i), All)]              \* everything excluded, one model forced back in
+SelectionTable == [k \in 1..Len(Selections) |->
+    [flags |-> Selections[k], wo |-> [m \in ModelIx |-> WritesOutputs(m, Selections[k])],
+                              wi |-> [m \in ModelIx |-> WritesInputs(m, Selections[k])]]]
+\* deselecting one model never affects another; forcing inclusion beats exclusion
+SelectionLocal == stage = "links" =>
+    \A i \in ModelIx : \A m \in ModelIx :
+        /\ WritesOutputs(m, Flags(None, Only(i), None, None)) = (m # i)
+        /\ WritesOutputs(m, Flags(Only(i), All, None, None)) = (m = i)
+        /\ WritesInputs(m, Flags(None, None, Only(i), All)) = (m = i)
+
 Evaluate ==
     /\ stage = "links" /\ ~done
     /\ LET ref == Reference IN
@@ -160,7 +205,7 @@ Evaluate ==
                                    models |-> [m \in 1..Len(models) |->
                                         [kind |-> models[m].kind, stored |-> models[m].stored,
                                          counts |-> models[m].counts, batches |-> Batches(m),
-                                         params |-> Params(models[m].kind),
+                                         params |-> [r \in 1..Total(m) |-> Params(models[m].kind, r - 1)],
                                          ni |-> NI(models[m].kind), no |-> NO(models[m].kind), ns |-> NS(models[m].kind),
                                          storedInputs |-> StoredInputs[m], initStates |-> InitStates[m]]],
                                    links |-> [i \in 1..Len(links) |->
@@ -169,6 +214,7 @@ Evaluate ==
                                          srcGenNode |-> l.sk, srcVar |-> l.sv,
                                          destGen |-> l.dg - 1, destModel |-> l.dm - 1, destNode |-> Row(l.dm, l.dg, l.dk),
                                          destGenNode |-> l.dk, destVar |-> l.dv]]],
+                                  select |-> SelectionTable,
                                   expect |-> [m \in 1..Len(models) |->
                                         [outputs |-> ref.outs[m], states |-> ref.fin[m], inputs |-> ref.inp[m]]]])))
     /\ done' = TRUE
